@@ -1,5 +1,73 @@
 import JF.Driver.Core
+import JF.Model.Kinematics
 namespace JF.Driver
-/-- component `sys` (stub until its model is written) -/
-def sysComp : Comp := Comp.pure fun _ => "unimplemented"
+open JF JF.Kin
+
+structure SysState where
+  dim : Nat := 0
+  L : List Float := []
+  us : List (PUnit Float) := []
+
+private def fls (l : List String) : List Float := l.map fl
+
+private def showUnit (u : PUnit Float) : String :=
+  joinSp (u.pos.map bits) ++ " " ++
+  (match u.vel with | some v => "1 " ++ joinSp (v.map bits) | none => "0") ++ " " ++
+  (match u.ts with | some t => s!"1 {bits t.q} {bits t.r}" | none => "0")
+
+private def dump (s : SysState) : String := " | ".intercalate (s.us.map showUnit)
+
+private def parseUnit (d : Nat) (a : List String) : Option (PUnit Float) :=
+  let pos := fls (a.take d)
+  match a.drop d with
+  | "0" :: _ => some ⟨pos, none, none⟩
+  | "1" :: rest =>
+    let v := fls (rest.take d)
+    match rest.drop d with
+    | ["1", q, r] => some ⟨pos, some v, some ⟨fl q, fl r⟩⟩
+    | ["0"] => some ⟨pos, some v, none⟩
+    | _ => none
+  | _ => none
+
+/-- component `sys`: the chain machine replayed on recorded runs, plus stateless `slice` requests -/
+def sysComp : Comp where
+  σ := SysState
+  init := {}
+  step s a :=
+    match a with
+    | "init" :: d :: ls => ({ dim := nat! d, L := fls ls, us := [] }, "ok")
+    | "unit" :: rest =>
+      match parseUnit s.dim rest with
+      | some u => ({ s with us := s.us ++ [u] }, "ok")
+      | none => (s, "bad-op")
+    | "set" :: i :: rest =>
+      match parseUnit s.dim rest with
+      | some u => ({ s with us := s.us.set (nat! i) u }, "ok")
+      | none => (s, "bad-op")
+    | ["dump"] => (s, dump s)
+    | "ev" :: kind :: q :: r :: rest =>
+      let t : Time Float := ⟨fl q, fl r⟩
+      let ev? : Option (Ev Float) :=
+        match kind, rest with
+        | "keep", [] => some (.keep t)
+        | "snap", [d, x] => some (.snap t (nat! d) (fl x))
+        | "lift", [b] => some (.lift t (nat! b))
+        | "start", a :: v => some (.start t (nat! a) (fls v))
+        | "eoc", a :: v => some (.endOfChain t (nat! a) (fls v))
+        | _, _ => none
+      match ev? with
+      | some e => let s' := { s with us := step Ops.float s.L s.us e }; (s', dump s')
+      | none => (s, "bad-op")
+    | "slice" :: d :: rest =>
+      -- slice d L.. pos.. vel.. tsq tsr tq tr
+      let d := nat! d
+      let L := fls (rest.take d)
+      let pos := fls ((rest.drop d).take d)
+      let vel := fls ((rest.drop (2*d)).take d)
+      match rest.drop (3*d) with
+      | [tsq, tsr, tq, tr] =>
+        let u := timeSlice Ops.float L ⟨fl tq, fl tr⟩ ⟨pos, some vel, some ⟨fl tsq, fl tsr⟩⟩
+        (s, joinSp (u.pos.map bits))
+      | _ => (s, "bad-op")
+    | _ => (s, "bad-op")
 end JF.Driver
